@@ -18,11 +18,19 @@
 (*      Mutate then deletes / duplicates / swaps / replaces tokens; what   *)
 (*      a mutant does is not predicted, only bounded by the property       *)
 (*      ==> "compiles-or-syntax-error".                                    *)
+(*      Rename writes one of the names the compiler treats specially       *)
+(*      (varargs, kwargs, caller, loop, self, super, ...) at any non-empty *)
+(*      set of identifier positions of a sentence - the name is then       *)
+(*      declared, bound and / or used by the same statement; all other     *)
+(*      identifiers stay distinct  ==> "compiles-or-syntax-error".         *)
 (*  Mode "strings"    Grow builds every string up to MaxLen over the       *)
 (*      delimiter-fragment alphabet Sigma, whose delimiter symbols stand   *)
 (*      for the configured delimiters of each syntax configuration.  A     *)
 (*      string that, written out in a configuration, contains no opening   *)
 (*      delimiter / line prefix is plain data ==> "compiles" there.        *)
+(*      Pump continues a short string in which markup is open with PumpLen *)
+(*      copies of one symbol (a construct that is opened and never closed, *)
+(*      followed by a long tail: loading must still finish).               *)
 (*                                                                         *)
 (* Outcome classification (Allowed): loading yields a template whose       *)
 (* generated code Python accepts, or TemplateSyntaxError (incl.            *)
@@ -41,10 +49,15 @@ CONSTANTS
     MaxMut,    \* skeletons: number of token mutations applied (0..2)
     MutSet,    \* skeletons: "none" | "tiny" | "few" | "all" : tokens used by Replace
     MaxLen,    \* strings: bound on the number of symbols
+    NameSet,   \* skeletons: "none" | "core" | "all" : special names written by Rename
+    PumpLen,   \* strings: number of copies of a symbol appended by Pump (0: no pumping)
+    PumpPrefix,\* strings: longest string that is pumped
     Profile    \* skeletons: "expr" : the full expression grammar (use a small MaxTok)
                \*            "stmt" : all statements, expressions cut down to a few
                \*                     representative forms (allows a larger MaxTok)
                \*            "forms": one statement with empty bodies, on the first or second line
+               \*            "scope": one statement, every body empty or one use of a name,
+               \*                     every expression a name (for Rename)
 
 VARIABLES
     out,       \* tokens derived so far / symbols of the string
@@ -152,7 +165,20 @@ FormProds ==
      !.Template = { <<"Stmt">>, <<"VS", "ExprT", "VE">>, <<"CS", "c", "CE">>, <<"BS", "extends", "Expr", "BE">>,
                     <<"t", "nl", "Stmt">> },
      !.Elems = { <<>> } ]
-Prods == CASE Profile = "stmt" -> StmtProds [] Profile = "forms" -> FormProds [] OTHER -> FullProds
+\* the "scope" profile: exactly one statement; what it binds / declares and what its bodies
+\* use are names only, so that Rename decides which of them coincide with a special name
+ScopeProds ==
+  [StmtProds EXCEPT
+     !.Template = { <<"Stmt">> },
+     !.Elems  = { <<>>, <<"VS", "N", "VE">> },
+     !.ExprT  = { <<"N">> },
+     !.Expr   = { <<"N">> },
+     !.Expr0  = { <<"N">> },
+     !.Args   = { <<>>, <<"N">>, <<"N", "=", "N">> },
+     !.Params = { <<>>, <<"N">>, <<"N", "=", "1">> },
+     !.Target = { <<"N">> } ]
+Prods == CASE Profile = "stmt" -> StmtProds [] Profile = "forms" -> FormProds
+           [] Profile = "scope" -> ScopeProds [] OTHER -> FullProds
 
 NonTerms == DOMAIN Prods
 IsNT(x) == x \in NonTerms
@@ -163,7 +189,7 @@ Terminals == UNION {RangeOf(rhs) : rhs \in UNION {Prods[n] : n \in NonTerms}} \ 
 \* least number of tokens derivable from each nonterminal; the ASSUME checks
 \* that the table is the fixpoint of the grammar equations
 MinLen ==
-  [ Template |-> CASE Profile = "stmt" -> 1 [] Profile = "forms" -> 3 [] OTHER -> 0, Elems |-> 0, Elem |-> 1, Stmt |-> 4, Target |-> 1, Params |-> 0, Args |-> 0,
+  [ Template |-> CASE Profile = "stmt" -> 1 [] Profile = "forms" -> 3 [] Profile = "scope" -> 4 [] OTHER -> 0, Elems |-> 0, Elem |-> 1, Stmt |-> 4, Target |-> 1, Params |-> 0, Args |-> 0,
     ExprT |-> 1, Expr |-> 1, Expr0 |-> 1, Cmp |-> 1, Bin |-> 1, Unary |-> 1, Post |-> 1,
     Sufs |-> 0, Suf |-> 2, Flts |-> 0, Atom |-> 1, Sub |-> 1, Sub1 |-> 1 ]
 RECURSIVE SumSeq(_, _)
@@ -188,8 +214,12 @@ TokText(tk) == CASE tk = "BS" -> "{%" [] tk = "BE" -> "%}" [] tk = "VS" -> "{{" 
                  [] tk = "CS" -> "{#" [] tk = "CE" -> "#}" [] tk = "nl" -> "\n" [] tk = "F" -> "upper"
                  [] tk = "T" -> "defined" [] tk = "N" -> "N" [] OTHER -> tk
 \* tokens only mutation introduces
+\* names the compiler / runtime treat specially when a template declares, binds or uses them
+CoreNames == {"varargs", "kwargs", "caller", "loop", "self", "super"}
+MoreNames == {"_", "namespace", "true", "None", "context", "environment", "range", "cycler"}
+SpecialNames == CASE NameSet = "core" -> CoreNames [] NameSet = "all" -> CoreNames \cup MoreNames [] OTHER -> {}
 ExtraToks == {"endset", "elif", "trans", "endtrans", "pluralize", "do", "break", "continue", "debug",
-              "loop", "caller", "self", "super", "varargs", "'", "\"", "\\", "?", "@", "-%}", "{%-", "+%}", "{%+",
+              "loop", "caller", "self", "super", "varargs", "kwargs", "'", "\"", "\\", "?", "@", "-%}", "{%-", "+%}", "{%+",
               "{{-", "-}}", "}", "{", "#", "##", "0x", "1e", "1_", "."}
 AllToks == Terminals \cup ExtraToks
 FewToks == {"BS", "BE", "VS", "VE", "N", "(", ")", ",", "=", "|", "else", "endfor", "is", "'", "1", "nl", "%", ":"}
@@ -288,20 +318,41 @@ Replace(i, t) == /\ out[i] # t
                  /\ out' = [out EXCEPT ![i] = t]
                  /\ muts' = Append(muts, <<"replace", i, t>>)
 
+\* a special name at a non-empty set P of the identifier positions of a sentence
+NPos(s) == {i \in 1..Len(s) : s[i] = "N"}
+Rename ==
+    /\ Mode = "skeletons" /\ phase = "done" /\ muts = <<>>
+    /\ \E s \in SpecialNames : \E P \in (SUBSET NPos(out)) \ {{}} :
+          /\ out' = [i \in 1..Len(out) |-> IF i \in P THEN s ELSE out[i]]
+          /\ muts' = << <<"name", s>> >>
+    /\ UNCHANGED <<stack, phase>>
+
 Mutate ==
     /\ Mode = "skeletons" /\ phase = "done" /\ Len(muts) < MaxMut
+    /\ (muts # <<>> => muts[1][1] # "name")
     /\ \E i \in 1..Len(out) :
           \/ Delete(i) \/ Duplicate(i) \/ Swap(i)
           \/ \E t \in MutToks : Replace(i, t)
     /\ UNCHANGED <<stack, phase>>
 
 Grow ==
-    /\ Mode = "strings" /\ phase = "done" /\ Len(out) < MaxLen
+    /\ Mode = "strings" /\ phase = "done" /\ Len(out) < MaxLen /\ muts = <<>>
     /\ \E c \in Sigma : out' = Append(out, c)
     /\ UNCHANGED <<stack, muts, phase>>
 
+\* a short string in which markup is open in some configuration, continued by a long
+\* run of one symbol: whatever was opened (a tag, a string literal, a bracket, a comment,
+\* a number, a line statement) is not closed for PumpLen symbols, or never
+MarkupOpen(s) == \E cfg \in SyntaxCfgs : ~PlainData(s, cfg)
+Pump ==
+    /\ Mode = "strings" /\ phase = "done" /\ muts = <<>> /\ PumpLen > 0
+    /\ Len(out) <= PumpPrefix /\ MarkupOpen(out)
+    /\ \E c \in Sigma : /\ out' = out \o [i \in 1..PumpLen |-> c]
+                        /\ muts' = << <<"pump", c, PumpLen>> >>
+    /\ UNCHANGED <<stack, phase>>
+
 SkeletonCase ==
-    [kind   |-> IF muts = <<>> THEN "valid" ELSE "mutant",
+    [kind   |-> IF muts = <<>> THEN "valid" ELSE IF muts[1][1] = "name" THEN "named" ELSE "mutant",
      toks   |-> out,
      muts   |-> muts,
      lines  |-> 1 + CountNl(out),
@@ -310,6 +361,7 @@ SkeletonCase ==
 StringCase ==
     [kind   |-> "string",
      syms   |-> out,
+     muts   |-> muts,
      lines  |-> 1 + Cardinality({i \in 1..Len(out) : out[i] = "\n"}),
      plain  |-> {cfg \in SyntaxCfgs : PlainData(out, cfg)}]
 
@@ -326,7 +378,7 @@ Judge ==
     /\ PrintT(ToJson([id |-> out.id, allowed |-> Allowed(out)]))
     /\ UNCHANGED <<out, stack, muts>>
 
-Next == Derive \/ Finish \/ Mutate \/ Grow \/ Emit \/ Judge
+Next == Derive \/ Finish \/ Rename \/ Mutate \/ Grow \/ Pump \/ Emit \/ Judge
 Spec == Init /\ [][Next]_vars
 
 (* ------------------------------------------------------------------------ *)
